@@ -54,6 +54,7 @@ POLICY = [
     ("GenConsts.v", r"BYTE_ORDER_MARK|PROPERTY_.*|FMTID", "trust", ["C10"]),
     ("GenConsts.v", r"POOL_.*|OPEN_UNWRAPS_CATALOG_CELLS|FFI_GET_TABLE_EXPECTS", "trust", ["C09"]),
     ("GenIo.v", r".*", "trust", ["C15"]),
+    ("GenSingleByte.v", r".*", "trust", ["C14"]),
 ]
 
 
